@@ -1,6 +1,7 @@
 package engine
 
 import (
+	"errors"
 	"bufio"
 	"bytes"
 	"crypto/sha1"
@@ -190,8 +191,16 @@ func runRange(ck Check, id, tier string, seed int64, pp **proc, lo, hi int64, fo
 		extra = append(extra, Failure{Clause: clause, Site: site, Features: feat(lastAT), Case: lastAT, Detail: msg, Unit: lastUnit})
 		poison = append(poison, lastAT)
 	}
+	if len(extra) > 0 {
+		// every death was located in a guarded case: the range is full of fatal cases. That is a finding, not a
+		// harness error: report what was located and leave the rest of the range unexplored.
+		return rangeRes{}, extra, errAbandoned
+	}
 	return rangeRes{}, extra, fmt.Errorf("too many worker deaths on range [%d,%d)", lo, hi)
 }
+
+// errAbandoned: a range was given up after 200 located fatal cases (its remaining units are not explored).
+var errAbandoned = errors.New("range abandoned after too many fatal cases")
 
 func firstLines(s string, n int) string {
 	l := strings.Split(s, "\n")
@@ -323,6 +332,7 @@ func RunCheck(o Options) int {
 	var mu sync.Mutex
 	var next int64
 	var harnessErr error
+	abandoned := 0 // ranges given up after 200 located fatal cases
 	cut := false
 	var wg sync.WaitGroup
 	for w := 0; w < o.Workers; w++ {
@@ -359,6 +369,12 @@ func RunCheck(o Options) int {
 					fmt.Fprintf(os.Stderr, "slow range [%d,%d): %.1fs extra=%d\n", lo, hi, el.Seconds(), len(extra))
 				}
 				mu.Lock()
+				abandonedRange := false
+				if err == errAbandoned {
+					abandoned++
+					abandonedRange = true
+					err = nil
+				}
 				if err != nil {
 					harnessErr = err
 					mu.Unlock()
@@ -368,7 +384,9 @@ func RunCheck(o Options) int {
 				a.Nontrivial += res.Nontrivial
 				a.Transitions += res.Transitions
 				a.Validated += res.Validated
-				a.UnitsDone += hi - lo
+				if !abandonedRange {
+					a.UnitsDone += hi - lo
+				}
 				for _, h := range res.Outcomes {
 					if len(a.Outcomes) < 1<<22 {
 						a.Outcomes[h] = struct{}{}
@@ -576,6 +594,9 @@ func RunCheck(o Options) int {
 		"known_findings_hit":            knownHit,
 		"masked_region":                 masked,
 		"workers":                       o.Workers,
+	}
+	if abandoned > 0 {
+		cov["abandoned_ranges"] = fmt.Sprintf("%d range(s) given up after 200 located fatal cases each; their remaining units are not explored", abandoned)
 	}
 	if cut {
 		cov["cap"] = fmt.Sprintf("internal deadline of %.0fs reached after %d of %d units; everything below unit %d was fully covered", budget, a.UnitsDone, sp.Units, a.UnitsDone)
